@@ -26,6 +26,7 @@ def variants_for(msg, asn4):
             rot = sorted(codes)
             out.append(('order-rotated', asn4, False, {'order': rot[1:] + rot[:1]}, msg))
     out.append(('trailing-bits', asn4, False, {'trailing_bits': 'ipv4-unicast'}, msg))
+    out.append(('trailing-bits-every-family', asn4, False, {'trailing_bits': True}, msg))
     if 2 in codes:
         out.append(('aspath-split', asn4, False, {'split_aspath': 1}, msg))
         out.append(('aspath-split2', asn4, False, {'split_aspath': 2}, msg))
@@ -91,8 +92,8 @@ def task_valid(args):
     classes = set()
     n = 0
     for fam, cv, msg, asn4 in codec.sliced(gen, lo, hi):
-        if fam == 'ipv4-unicast-mp':
-            continue
+        # (IPv4 unicast carried in MP_REACH / MP_UNREACH is a legal encoding a peer may choose: decoding it is C09's business although
+        #  the agent's own encoder never produces it)
         for label, a4, ap, opts, m in variants_for(msg, asn4):
             n += 1
             sym, det = check(m, a4, ap, opts)
